@@ -284,3 +284,122 @@ pub fn sym_static_str<const L: usize>() -> (&'static str, [u8; L]) {
     let s: &'static str = unsafe { core::str::from_utf8_unchecked(&leaked[..]) };
     (s, bytes)
 }
+
+// ---------------------------------------------------------------- AML decoders (ACPI 6.5 §20.2)
+
+/// PkgLength decoder (§20.2.4). Returns (value, bytes used, lead-byte format ok).
+pub fn decode_pkglen(b: &[u8], off: usize) -> (usize, usize, bool) {
+    let lead = b[off];
+    let follow = (lead >> 6) as usize;
+    if follow == 0 {
+        return ((lead & 0x3f) as usize, 1, true);
+    }
+    let mut val = (lead & 0x0f) as usize;
+    let mut i = 0;
+    while i < 3 {
+        if i < follow {
+            val |= (b[off + 1 + i] as usize) << (4 + 8 * i);
+        }
+        i += 1;
+    }
+    (val, follow + 1, lead & 0x30 == 0)
+}
+
+/// largest total a PkgLength of n bytes can state
+pub fn pkglen_max(n: usize) -> usize {
+    match n {
+        1 => 63,
+        2 => (1 << 12) - 1,
+        3 => (1 << 20) - 1,
+        _ => (1 << 28) - 1,
+    }
+}
+
+/// reference: shortest self-inclusive PkgLength for a body of `len` bytes
+pub fn ref_pkglen_incl<const N: usize>(e: &mut Exp<N>, len: usize) {
+    let mut n = 1;
+    while n < 4 && len + n > pkglen_max(n) {
+        n += 1;
+    }
+    let total = len + n;
+    if n == 1 {
+        e.u8(total as u8);
+    } else {
+        e.u8((((n - 1) as u8) << 6) | (total & 0xf) as u8);
+        let mut i = 0;
+        while i < 3 {
+            if i < n - 1 {
+                e.u8((total >> (4 + 8 * i)) as u8);
+            }
+            i += 1;
+        }
+    }
+}
+
+/// Integer constant reference encoder (§20.2.3): ZeroOp, OneOp, Byte/Word/DWord/QWord prefix.
+pub fn ref_int<const N: usize>(e: &mut Exp<N>, v: u64) {
+    if v == 0 {
+        e.u8(0x00);
+    } else if v == 1 {
+        e.u8(0x01);
+    } else if v <= 0xff {
+        e.u8(0x0a).u8(v as u8);
+    } else if v <= 0xffff {
+        e.u8(0x0b).u16(v as u16);
+    } else if v <= 0xffff_ffff {
+        e.u8(0x0c).u32(v as u32);
+    } else {
+        e.u8(0x0e).u64(v);
+    }
+}
+
+/// Integer constant decoder: (value, bytes used, recognised)
+pub fn decode_int(b: &[u8], off: usize) -> (u64, usize, bool) {
+    match b[off] {
+        0x00 => (0, 1, true),
+        0x01 => (1, 1, true),
+        0x0a => (b[off + 1] as u64, 2, true),
+        0x0b => (u16::from_le_bytes([b[off + 1], b[off + 2]]) as u64, 3, true),
+        0x0c => (
+            u32::from_le_bytes([b[off + 1], b[off + 2], b[off + 3], b[off + 4]]) as u64,
+            5,
+            true,
+        ),
+        0x0e => {
+            let lo = u32::from_le_bytes([b[off + 1], b[off + 2], b[off + 3], b[off + 4]]) as u64;
+            let hi = u32::from_le_bytes([b[off + 5], b[off + 6], b[off + 7], b[off + 8]]) as u64;
+            (lo | (hi << 32), 9, true)
+        }
+        _ => (0, 0, false),
+    }
+}
+
+/// Symbolic name path through the Path hook: (path, root, segments)
+pub fn sym_path<const S: usize>() -> (acpi_tables::aml::Path, bool, [[u8; 4]; S]) {
+    let root: bool = kani::any();
+    let segs: [[u8; 4]; S] = kani::any();
+    let mut v = Vec::with_capacity(S);
+    let mut i = 0;
+    while i < S {
+        v.push(segs[i]);
+        i += 1;
+    }
+    (acpi_tables::aml::Path::verif_from_parts(root, v), root, segs)
+}
+
+/// Reference NameString (§20.2.2)
+pub fn ref_namestring<const N: usize, const S: usize>(e: &mut Exp<N>, root: bool, segs: &[[u8; 4]; S]) {
+    if root {
+        e.u8(0x5c);
+    }
+    if S == 2 {
+        e.u8(0x2e);
+    } else if S > 2 {
+        e.u8(0x2f).u8(S as u8);
+    }
+    let mut i = 0;
+    while i < S {
+        e.bytes(&segs[i]);
+        i += 1;
+    }
+}
